@@ -122,6 +122,9 @@ class SEval:
         if isinstance(s, ast.Expr):
             if isinstance(s.value, ast.Constant):
                 return
+            if isinstance(s.value, ast.Call) and (norm(s.value.func) == "print" or
+                                                  norm(s.value.func).startswith(("logging.", "logger.", "warnings."))):
+                return
             self.ev(s.value)
         elif isinstance(s, ast.Assign):
             v = self.ev(s.value)
